@@ -218,6 +218,33 @@ def check(run, ctx):
                 else:
                     run.ok(B8, f"{f.name}:{norm(n)[:30]}", "read from the member itself")
     run.require(n_b8 >= 1, "B8: no message builder reading member fields found in stringly_typed.violation_generator")
+    B9 = run.rule("B9", "the name quoted for a TypeScript function value (arrow function / function expression) is read from the node it is the direct initialiser of: the variable_declarator consulted is `<node>.parent`, not something found by climbing", floor=2,
+                  decides="a callback that is merely an argument inside an initialiser (`const total = xs.map((x) => {...})`) is not reported under the variable's name at the callback's line")
+    from .. import inline
+    repo = ctx.repo
+    ext = [f for f in repo.funcs_in("src.linters.nesting.typescript_function_extractor.") if f.parent is None and len(f.node.args.args) >= 2
+           and any(isinstance(c, ast.Constant) and c.value == "variable_declarator" for c in ast.walk(f.node))]
+    run.require(len(ext) >= 2, f"B9: only {len(ext)} name extractors consult a variable_declarator")
+    for f in ext:
+        npar = f.node.args.args[1].arg
+        cmp_vars = {n.left.value.id for n in ast.walk(f.node) if isinstance(n, ast.Compare) and isinstance(n.left, ast.Attribute) and n.left.attr == "type" and isinstance(n.left.value, ast.Name)
+                    and any(isinstance(c, ast.Constant) and c.value == "variable_declarator" for c in n.comparators)}
+        bad = None
+        for v in sorted(cmp_vars):
+            binds = [a.value for a in ast.walk(f.node) if isinstance(a, ast.Assign) and any(isinstance(t, ast.Name) and t.id == v for t in a.targets)]
+            for b in binds:
+                direct = isinstance(b, ast.Attribute) and b.attr == "parent" and isinstance(b.value, ast.Name) and b.value.id == npar
+                if direct and len(binds) == 1:
+                    continue
+                h = inline.resolve_call(repo, f, b) if isinstance(b, ast.Call) else None
+                climbs = h is not None and any(isinstance(x, (ast.While, ast.For)) for x in ast.walk(h.node))
+                bad = f"`{v} = {norm(b)[:50]}`" + (f" ({h.name} climbs in a loop)" if climbs else "")
+            if not binds and v != npar:
+                bad = f"`{v}` is not bound from {npar}.parent"
+        if bad:
+            run.finding(B9, f.name, f"declarator-not-direct-parent:{f.name}", f"{f.qual}: the declarator whose name is quoted is found through {bad} rather than `{npar}.parent`: a function value that is only a call argument or otherwise wrapped inside an initialiser is reported under the variable's name, while line and column stay those of the callback - the quoted name is not on the reported line", f.loc)
+        else:
+            run.ok(B9, f.name, f"name read from {npar}.parent only")
     return __doc__
 
 
